@@ -29,6 +29,13 @@ def run(chk, ix, tier):
     rules_location.check_build_feature(chk, ix)
     rules_location.check_add_location_and_clear(chk, ix)
     rules_location.check_walk_scenarios(chk, ix, "L10")
+    # the line written to the rerun file is the line of the row in the feature file (shared with C04/C10)
+    from .. import rules_parser
+    rules_parser.check_line_numbers(chk, ix)
+    chk.rules.pop("E4", None)
+    chk.findings[:] = [f_ for f_ in chk.findings if f_.rule != "E4"]
+    # the rerun file is read back by the list-file reader: every location written comes back as written
+    rules_location.check_location_parsing(chk, ix)
     rules_rerun.check_outfile_mode(chk, ix)
     # what the rerun formatter reads at the end is the scenario's FINAL status: a failed hook leaves hook_error cached (R4)
     T.t_scenario(chk, ix, ("R4",))
